@@ -15,7 +15,8 @@ from ..common import rng_for, b2j
 
 LEVEL = "exploration"
 SHARDS = {"quick": 1, "thorough": 16}
-REQUIRED = ("parse_pack_pairs_compared", "field_positions_compared", "moves_observed", "alignment_moves_checked",
+REQUIRED = ("described_position_parses", "described_position_parses_with_stored_different_from_computed", "described_position_packs",
+            "parse_pack_pairs_compared", "field_positions_compared", "moves_observed", "alignment_moves_checked",
             "at_moves_checked", "shift_moves_checked", "moves_ref_innermost", "moves_ref_begins", "moves_ref_current",
             "moves_in_nested_packets", "nonzero_start_offsets", "skipped_bytes_checked", "element_alignment_observed",
             "class_align_families", "model_moves_compared")
@@ -203,9 +204,81 @@ def one_case(run, bench, raw, off):
     run.case(key=(bench.skeleton, min(off, 2), tuple(sorted(map(str, sig)))), nontrivial=bool(mr.trace.moves) or bool(sig))
 
 
+DESCRIBED_POS_SRC = render.HEADER + """
+class Rec%(V)s(Packet):
+    __bisturi__ = %(O)r
+    nlen = Int(1)
+    off = Int(1).describe(Auto(lambda pkt: 2 + len(pkt.name)))
+    name = Data(nlen)
+    payload = Data(4).at(off)
+
+
+class Box%(V)s(Packet):
+    __bisturi__ = %(O)r
+    pad = Data(3)
+    recs = Ref(Rec%(V)s).repeated(2)
+"""
+
+
+def described_position_probe(run, rng):
+    """A position given by a *described* field (docs: an offset field computed from the layout).  On input the field is placed
+    where the value stored in the data says (decoded here from the bytes); on output where the attribute currently reads
+    (for an automatic field: the computed value) - the same rule on both sides, relative to the same reference point."""
+    d = common.scratch_dir("bvf_c10d_")
+    try:
+        for tag, opts in (("g", {"generate_for_pack": False, "generate_for_unpack": False}), ("d", {}), ("nv", {"vectorize": False})):
+            src = DESCRIBED_POS_SRC % {"V": "_" + tag, "O": opts}
+            module, path = render.load_source(src, d)
+            Rec = getattr(module, "Rec_" + tag)
+            Box = getattr(module, "Box_" + tag)
+            for _ in range(40):
+                n = rng.randrange(0, 4)
+                name = bytes(rng.choice(b"abcdef") for _ in range(n))
+                extra = rng.choice([0, 0, 1, 2, 5])              # stored offset = computed + extra (padding before the payload)
+                stored = 2 + n + extra
+                payload = bytes(rng.choice(b"WXYZ0123") for _ in range(4))
+                rec = bytes([n, stored]) + name + b"~" * extra + payload
+                w = {"source": src, "raw": b2j(rec), "stored_offset": stored, "computed_offset": 2 + n, "variant": tag}
+                for cls, raw, base, get in ((Rec, rec, 0, lambda p: p), (Box, b"PAD" + rec + rec, 3, lambda p: p.recs[0])):
+                    r = harness.lib_unpack(cls, raw)
+                    if r.status != "ok":
+                        run.violation("a record whose stored payload offset differs from the computed one does not parse: %s" % str(r.err)[:120],
+                                      dict(w, nested=base > 0), None)
+                        return
+                    p = get(r.pkt)
+                    run.count("described_position_parses")
+                    if extra:
+                        run.count("described_position_parses_with_stored_different_from_computed")
+                    if p.payload != payload or p.name != name:
+                        run.violation("on input a field positioned by a described field is not read where the value stored in the data says "
+                                      "(relative to the start of its packet)", dict(w, nested=base > 0, got=b2j(p.payload), want=b2j(payload)), None)
+                        return
+                    pr = harness.lib_pack(r.pkt)
+                    if pr.status != "ok":
+                        run.violation("pack() of such a record failed: %s" % str(pr.err)[:120], dict(w, nested=base > 0), None)
+                        return
+                    out = pr.pkt[base:]
+                    visible = p.off
+                    run.count("described_position_packs")
+                    if out[1] != visible or out[visible:visible + 4] != payload or out[2:2 + n] != name:
+                        run.violation("on output a field positioned by a described field is not written where that field currently reads "
+                                      "(the position byte and the place of the payload disagree)",
+                                      dict(w, nested=base > 0, packed=b2j(pr.pkt), attribute_reads=visible), None)
+                        return
+            import sys as _sys
+            _sys.modules.pop(module.__name__, None)
+    finally:
+        common.drop_scratch(d)
+
+
 def run(run):
     shard, nshards = run.shard
     rng = rng_for(run.seed, "c10", shard)
+    if run.shard[0] == 0:
+        described_position_probe(run, rng_for(run.seed, "c10-described-position"))
+    else:
+        for k in ("described_position_parses", "described_position_parses_with_stored_different_from_computed", "described_position_packs"):
+            run.count(k)
     nfam = 520 if run.tier == "quick" else 2200
     ninputs = 10 if run.tier == "quick" else 12
     profile = {"p_describe": 0.06, "p_move": 0.45, "p_backward_at": 0.12, "p_class_align": 0.15, "p_rep": 0.2,
